@@ -17,4 +17,13 @@ GraphMatches(nodes, edges, entries, P) ==
       /\ SeqBag(ObsEdges(nodes, edges)) = G.edges
       /\ Cardinality(ObsEntries(nodes, entries)) = Len(entries)
       /\ ObsEntries(nodes, entries) = {<<t, EN[t]>> : t \in DOMAIN EN}
+\* "" if the recorded graph matches, else which part differs first
+GraphDiff(nodes, edges, entries, P) ==
+  LET G == Graph(P)
+      EN == EntryNodes(P)
+  IN  IF SeqBag(nodes) # G.nodes THEN "node bag differs from Cfg!Graph"
+      ELSE IF SeqBag(ObsEdges(nodes, edges)) # G.edges THEN "edge bag differs from Cfg!Graph"
+      ELSE IF Cardinality(ObsEntries(nodes, entries)) # Len(entries)
+              \/ ObsEntries(nodes, entries) # {<<t, EN[t]>> : t \in DOMAIN EN} THEN "entry nodes differ from Cfg!EntryNodes"
+      ELSE ""
 =============================================================================
